@@ -285,7 +285,7 @@ def history_templates_steps(tier, pid):
         add('ask and fee-bearing bid, match', both, [ask, bidf, match])
         add('approved convertible ask and bid, match', askonly, [ask, appr, bid, match])
         add('approvers replaced by a migration between approval and match', none_, [ask, appr, migrate_step(approvers=True), bid, match])
-        add('bid fee account changed between bid and match', bidonly, [bidf, S('ModifyContract', mod=tuple((n, n == 'bid_fee_account') for n in MOD_NAMES)), ask, match])
+        add('bid fee account changed between bid and match', bidonly, [bidf, S('ModifyContract', mod=tuple((n, n in ('bid_fee_rate', 'bid_fee_account')) for n in MOD_NAMES)), ask, match])
         if tier == 'thorough':
             add('second match on the partially filled orders', both, [ask, bidf, match, match])
             add('match after a partial reject of the bid', bidonly, [bidf, S('RejectBidSome'), ask, match])
@@ -303,6 +303,15 @@ def history_templates_steps(tier, pid):
         add('second ask under the id of the first', none_, [ask, ask])
         add('second bid under the id of the first', bidonly, [bidf, bidf])
         add('ask under the id of a cancelled ask', none_, [ask, S('CancelAsk'), ask])
+    if pid == 'C06':
+        # "after partial fills of any accepted size, partial rejects, changes of fee account, and for orders carried across migration"
+        add('fee-bearing bid partially filled, then cancelled by its owner', bidonly, [bidf, ask, match, S('CancelBid')])
+        add('fee-bearing bid partially rejected, then expired', bidonly, [bidf, S('RejectBidSome'), S('ExpireBid')])
+        add('bid fee account changed, then the bid cancelled', bidonly, [bidf, S('ModifyContract', mod=tuple((n, n in ('bid_fee_rate', 'bid_fee_account')) for n in MOD_NAMES)), S('CancelBid')])
+        add('fee-bearing bid carried across a migration that changes the bid fee, then cancelled', bidonly, [bidf, migrate_step(bid_fee_rate=True, bid_fee_account=True), S('CancelBid')])
+        add('approved convertible ask carried across a migration that replaces the approvers, then cancelled', none_, [ask, appr, migrate_step(approvers=True), S('CancelAsk')])
+        add('approved convertible ask partially rejected, then expired', none_, [ask, appr, S('RejectAskSome'), S('ExpireAsk')])
+        add('ask partially filled, then cancelled by its owner', askonly, [ask, bid, match, S('CancelAsk')])
     if pid == 'C16':
         Q = lambda q: dict(kind='Query', q=q, nfunds=0)
         add('fee-bearing bid partially rejected, rest rejected by size, then queried', bidonly, [bidf, S('RejectBidSome'), S('RejectBidSome'), Q('GetBid')])
@@ -438,7 +447,7 @@ def migrate_step(**opt):
     return dict(kind='Migrate', nfunds=0, opt=tuple(sorted(opt.items())), n_appr_req=1)
 
 
-def run_history(sc, hspec, ireq, max_paths=12000, final_all=False):
+def run_history(sc, hspec, ireq, max_paths=12000, final_all=False, truncate=False):
     """depth-first over accepting paths; yields (list of (req, funds, path)) for every complete accepted history
     (final_all: the last request's refused / aborted paths as well, for statements about what must be accepted or refused)"""
     steps = hspec['steps']
@@ -488,5 +497,8 @@ def run_history(sc, hspec, ireq, max_paths=12000, final_all=False):
         for tr in rec(0, p0.world, p0.pc, [(ireq, [], p0)]):
             n += 1
             if n > max_paths:
+                if truncate:
+                    sc.shape['history_truncated'] = True      # stated coverage bound of the reached-state templates, reported in the evidence
+                    return
                 raise RuntimeError('history path budget exceeded')
             yield tr
